@@ -41,7 +41,7 @@ def run(tier):
     ksub = {'KNOWN = set()': 'KNOWN = ' + repr(set(known))} if known else {}
     jobs = [chrun.Job(M, 'opt', 200 if q else 600, subst=dict({'PART = -1': f'PART = {p}'}, **ksub), label=f'opt[{p}]', twin=(p in (0, 13))) for p in range(16)]
     jobs.append(chrun.Job(M, 'trunc_char', 200 if q else 600, subst=ksub))
-    nlexeme, nlex = (16, 2) if q else (20, 3)
+    nlexeme, nlex = (16, 2) if q else (14, 3)
     jobs += pipe.jobs_for('vf/ch/total.py', 'total', nlexeme, nlex, 300 if q else 2400, extra_subst=ksub, why='total_why')
     res = chrun.run_jobs(jobs)
 
